@@ -3,7 +3,7 @@ from __future__ import annotations
 from enum import auto, Enum
 from time import time
 from typing import Awaitable, Callable, Optional, Tuple
-from urllib.parse import unquote
+from urllib.parse import unquote_to_bytes
 
 from .events import (
     Body,
@@ -90,7 +90,7 @@ class HTTPStream:
                 "asgi": {"spec_version": "2.1", "version": "3.0"},
                 "method": event.method,
                 "scheme": self.scheme,
-                "path": unquote(path.decode("ascii")),
+                "path": unquote_to_bytes(path).decode("utf-8", "replace"),
                 "raw_path": path,
                 "query_string": query_string,
                 "root_path": self.config.root_path,
